@@ -62,12 +62,10 @@ def explorations(tier):
         ex.append(("engine G4 W=2 sync b<=2", ENGINE, list(EC([4], [2], scheds)), {"preempt": 2, "random": 1, "yield": 1}))
         ex.append(("engine G3 W=2 bytecode b<=2", ENGINE, list(_with(EC([3], [2], scheds), bc=True)), {"preempt": 2, "random": 1, "yield": 1}))
         ex.append(("engine G3 W=3 bytecode b<=1", ENGINE, list(_with(EC([3], [3], det), bc=True)), {"preempt": 1}))
-        ex.append(("engine G4-join W=2 bytecode b<=2", ENGINE,
-                   list(_with(EC([4], [2], ["default", "random"], only_join=True), bc=True)), {"preempt": 2, "random": 1, "yield": 1}))
-        ex.append(("engine curated 5-node join shapes W=2 bytecode b<=2", ENGINE,
-                   list(_with(engine.curated_configs([2], ["cheap", "default", "random"]), bc=True)), {"preempt": 2, "random": 1, "yield": 0}))
-        ex.append(("engine curated 5-node join shapes W=3 bytecode b<=1", ENGINE,
-                   list(_with(engine.curated_configs([3], ["default"]), bc=True)), {"preempt": 1}))
+        ex.append(("engine G4-join W=2 bytecode b<=1, default and random queue", ENGINE,
+                   list(_with(EC([4], [2], ["default", "random"], only_join=True), bc=True)), {"preempt": 1, "random": 1}))
+        ex.append(("engine curated 5-node join shapes W=2 bytecode b<=1", ENGINE,
+                   list(_with(engine.curated_configs([2], ["cheap", "default", "random"]), bc=True)), {"preempt": 1, "random": 1, "yield": 1}))
         ex.append(("api plans n=3: W=1 every pop order; W=2 b<=1", PLAN,
                    [{"n": 3, "edges": e, "output": [0, 1, 2], "W": w, "sched": sc}
                     for e in planh.plan_configs(3) for w, sc in ((1, "random"), (2, "default"))],
@@ -81,7 +79,7 @@ def explorations(tier):
         ex.append(("api plans n=3 with chains of two surviving literals / literals wired downstream-first, W=1 every pop order / W=2 b<=2", PLAN,
                    [{"n": 3, "edges": e, "output": [0, 1, 2], "W": w, "sched": sc}
                     for e in planh.plan_configs(3, kinds=("p", "d", "lla", "lr")) if any(k[2] in ("lla", "lr") for k in e) for w, sc in ((1, "random"), (2, "default"), (2, "random"))],
-                   {"preempt": 2, "random": 1, "yield": 1}))
+                   {"preempt": 1, "random": 2, "yield": 1}))
         from .c06 import api_fail_cfgs, engine_fail_cfgs
         ex.append(("engine G3 x fault patterns x max_errors {1,2,None}, W=1..2, sync b<=2", ENGINE,
                    list(engine_fail_cfgs([3], [1, 2], ["default", "random"], max_errors=(1, 2, None))), {"preempt": 2, "random": 1, "yield": 1}))
